@@ -35,7 +35,7 @@ func (c03) Info() core.Info {
 		Level: "exploration",
 		Rule: "statements = select-list x where x order x limit (and aggregate x group x where x order x limit) from pools covering every scalar function, every operator, list/JSON indexing, aliases referenced by WHERE/ORDER/later fields and every aggregate function; stores of sizes 0,1,B-1,B,B+1,2B,2B+1,3B+1 in numeric, mixed-text, CSV and JSON-valued variants, for B in {1,2,3} plus B=32 on 65/70-pair stores (thorough: two extra fields, B=5). Each statement is drained with Next and with Batch on equal stores. " +
 			"Oracle: batch ok => row ok; both ok => canonical rows equal position by position (with ORDER BY: equal multisets inside maximal runs of equal order keys). Non-trivial: both complete with >=1 row, or exactly one fails. Distinct: (statement, store, B)." +
-			" Family nk: 32 numeric constructs (IN over integer / float / mixed / computed lists, six comparisons, BETWEEN, arithmetic then =) x 8 left operands of every numeric kind, on the integer and the mixed-number stores, as field, as filter and under ORDER BY.",
+			" Family nk: 32 numeric constructs (IN over integer / float / mixed / computed lists, six comparisons, BETWEEN, arithmetic then =) x 8 left operands of every numeric kind, on the integer and the mixed-number stores, as field, as filter and under ORDER BY; plus comparisons / BETWEEN / IN / ORDER BY over a `bignum` store of integers float64 cannot tell apart (2^53 and its neighbours, the int64 limits).",
 		Assumptions: []string{"batch failing where row succeeds is allowed (row mode short-circuits & and |)", "columns compared by content via the canonical column form (DESIGN.md §3.2)"},
 	}
 }
@@ -204,6 +204,9 @@ func c03Values(kind string) []string {
 		return []string{`{"a":1,"l":[1,2],"o":{"b":2}}`, `{"a":"x","l":["p","q"],"o":{"b":"y"}}`, `{"a":2.5,"l":[true,null,3],"o":{"b":[1]}}`, `{"z":0}`}
 	case "mixnum":
 		return []string{"1", "1.5", "2", "0.5"}
+	case "bignum":
+		// integers that float64 cannot tell apart (beyond 2^53, next to the int64 limits)
+		return []string{"9007199254740991", "9007199254740992", "9007199254740993", "9007199254740994", "7", "9223372036854775806", "9223372036854775807", "-9223372036854775807", "-9007199254740993"}
 	}
 	return []string{"a", "1", "ab", "2", "A1", ""}
 }
@@ -352,6 +355,21 @@ func (c03) RunUnit(t core.Tier, u int, r *core.Reporter) {
 					run("select key where "+e, kind, nil, b)
 					run("select key, value where key > 'a001' & ("+e+") order by value desc", kind, nil, b)
 				}
+			}
+		}
+		if un.i == 0 {
+			// integers are compared as integers in both modes, beyond 2^53 too
+			for _, e := range []string{"int(value) >= 9007199254740993", "int(value) > 9007199254740992", "int(value) < 9007199254740993", "9007199254740993 <= int(value)",
+				"int(value) <= 9223372036854775806", "int(value) = 9007199254740993", "int(value) != 9007199254740992", "int(value) between 9007199254740993 and 9223372036854775806",
+				"int(value) in (9007199254740993, 7)", "int(value) - 1 > 9007199254740991", "int(value) > int(value) - 1", "int(value) < 0 - 9007199254740992"} {
+				for _, b := range append(append([]int(nil), bs...), 32) {
+					run("select key, "+e+" as x where true", "bignum", nil, b)
+					run("select key where "+e, "bignum", nil, b)
+				}
+			}
+			for _, b := range append(append([]int(nil), bs...), 32) {
+				run("select key, int(value) as n where true order by n", "bignum", []int{1}, b)
+				run("select key, int(value) as n where true order by n desc", "bignum", []int{1}, b)
 			}
 		}
 	case "fk":
